@@ -168,6 +168,9 @@ impl DigitString {
     }
 
     pub fn is_position_free(&self, position: usize) -> bool {
+        if self.buffer.is_empty() {
+            return true;
+        }
         let max_pos = self.buffer.len() - 1;
         position > max_pos || self.buffer[max_pos - position] == b'0'
     }
